@@ -46,7 +46,7 @@ var hrefPool = []string{"http://example.com/", "https://a.b/c", "//cdn.x/y", "/l
 	" //padded.example/", "  //padded.example/x ", "\t//tab.example/", "/\t/tab.example/", "//new\nline.example/", " /local ", "\n//nl.example/",
 	// forms in which only a browser finds a host
 	"http:/evil.example", "https:evil.example/x", "https:\\\\evil.example", "///evil.example/", "/\\evil.example", "\\\\evil.example/p", "\\/evil.example", "HTTP:\\evil.example", "/%2F/evil.example/^", "ftp:/files.example/", "/\\/evil.example", "x-app:/local", "mailto:/x"}
-var targetPool = []string{"_blank", "_self", "foo", "_BLANK", "", "_blank ", "_top"}
+var targetPool = []string{"_blank", "_self", "foo", "_BLANK", "", "_blank ", "_top", "_Blank", "x\n<", "a\t<b", "_blan\u212a", "x\ny"}
 
 func genC11(t *rapid.T) *Case {
 	nr := func(o Op) Op {
@@ -160,6 +160,16 @@ func genLinkElements(t *rapid.T) string {
 	return sb.String()
 }
 
+// blankTarget: the target a browser takes for _blank (HTML, "get an element's target" and the rules
+// for choosing a navigable): the keyword is matched ASCII case-insensitively, and a value that
+// contains an ASCII tab or newline and a "<" is replaced by _blank.
+func blankTarget(v string) bool {
+	if asciiLower(v) == "_blank" {
+		return true
+	}
+	return strings.ContainsAny(v, "\t\n\r") && strings.Contains(v, "<")
+}
+
 func checkC11(c *Case, r *Rec) error {
 	m := BuildModel(c.Spec)
 	in := string(c.Input)
@@ -195,10 +205,10 @@ func checkC11(c *Case, r *Rec) error {
 			return violation(out, "C11: <%s href=%q> lacks the rel token noreferrer (rel=%q)", tk.Name, href, rel)
 		}
 		if tk.Name == "a" {
-			if m.targetBlank && fq && !(hasT && tgt == "_blank") {
+			if m.targetBlank && fq && !(hasT && blankTarget(tgt)) {
 				return violation(out, "C11: <a href=%q> has a host but target=%q (present=%v) instead of _blank", href, tgt, hasT)
 			}
-			if anyOpt && hasT && tgt == "_blank" && !hasTok(rel, "noopener") {
+			if anyOpt && hasT && blankTarget(tgt) && !hasTok(rel, "noopener") {
 				return violation(out, "C11: <a href=%q target=_blank> lacks the rel token noopener (rel=%q)", href, rel)
 			}
 		}
